@@ -88,11 +88,12 @@ def partial_flags(cfg):
 
 class SwitchInfo:
     """what each edge of a switch block tells us"""
-    __slots__ = ('flag', 'var_roots', 'edges', 'pred_call')
+    __slots__ = ('flag', 'var_roots', 'edges', 'pred_call', 'inverted')
 
     def __init__(self):
         self.flag = None        # flag local switched on (or None)
         self.var_roots = []     # list of place keys whose variant is learned
+        self.inverted = set()   # roots whose variant index is the opposite one (Option behind Try::branch: Break(1) <-> None(0))
         self.edges = []         # list of (value or None for otherwise, target, variant or None)
         self.pred_call = None
 
@@ -127,8 +128,10 @@ def analyse_switches(cfg, flags):
                         p = cfg._resolve_place(Place(rv['p']), 0)
                         roots = [p]
                         # through Try::branch: ControlFlow Break(1) <-> Err(1), Continue(0) <-> Ok(0)
-                        roots += try_branch_sources(cfg, p)
+                        tb = try_branch_sources(cfg, p)
+                        roots += tb
                         info.var_roots = [place_key(r) for r in roots]
+                        info.inverted = set(place_key(r) for r in tb if r.t.startswith('std::option::Option<'))
                         two = p.t.startswith(TWO_VARIANT)
                         new_edges = []
                         seen_vals = [v for v, _ in vals]
@@ -282,7 +285,7 @@ class Explorer:
                     known = None
                     for f in facts:
                         if f[0] == 'var' and f[1] in info.var_roots:
-                            known = f[2]
+                            known = (1 - f[2]) if (f[1] in info.inverted and f[2] in (0, 1)) else f[2]
                             break
                     if known is not None:
                         ch = [e for e in edges if e[2] == known]
@@ -302,7 +305,7 @@ class Explorer:
                     if variant is not None and info.var_roots and self.use_var_facts:
                         nf = set(f for f in facts if not (f[0] == 'var' and f[1] in info.var_roots))
                         for r in info.var_roots:
-                            nf.add(('var', r, variant))
+                            nf.add(('var', r, (1 - variant) if (r in info.inverted and variant in (0, 1)) else variant))
                         nfacts = frozenset(nf)
                     self._push(work, bi, st, tgt, nfl, nfacts)
             else:
